@@ -90,7 +90,7 @@ func noncanonical(x, y string) bool { return x != y }
 func TestRepoTestdata(t *testing.T) {
 	const test = "RepoTestdata"
 	hx.Rule(test, "every .ll file of the repository's testdata the parser accepts: y=print(parse(x)) is accepted, print(parse(y))==y byte for byte, and the two parsed modules are structurally identical (reflection bisimulation with one-to-one pairing of identity-bearing objects)")
-	for i, f := range corpus.RepoTestdata() {
+	for i, f := range corpus.Fixed() {
 		if !hx.Mine(i) {
 			continue
 		}
